@@ -191,6 +191,10 @@ def rules(ctx, tier):
                 judged[ok_key] = (ok and (prev[0] if prev else True), why if not ok or prev is None else prev[1])
     for p in sorted(reach):
         b = prog.bodies[p]
+        for s_ in b.calls():
+            if (s_.path or "").split("::")[-1] in ("checked_sub", "saturating_sub") and (s_.path or "").startswith("core::num"):
+                r.ok("sub:%s" % b.path.split("::")[-1], b, "subtraction at %s cannot underflow (%s)" % (
+                    site_where(s_), (s_.path or "").split("::")[-1]))
         for bb in b.normal_blocks():
             for (lhs, op, a, bo) in binops_in(b, bb):
                 if op not in SUB_OPS:
@@ -294,6 +298,18 @@ def alloc_bounded(ctx, r, b, site, size_op, size_f, key_body=None):
         r.ok("alloc:size-hint:%s" % kb.path.split("::")[-1], kb, "allocation at %s is the stored blob size" % where)
         return
     # (b) size = end - start, start <= end, end clamped to the stored size, start < size
+    csubs = [l for l in lv if l[0] == "call" and l[1].split("::")[-1] in ("checked_sub",)]
+    if len(lv) == 1 and csubs:
+        # `end.checked_sub(start).ok_or(err)?`: end-start, and start<=end by construction
+        t_ = b.blocks[csubs[0][2]]["term"]
+        a, bo = t_["args"][0], t_["args"][1]
+        ok_end = clamped_to_size(ctx, b, sl, a, size_f)
+        ok_start = start_below_size(ctx, b, sl, bo, site.bb, size_f)
+        r.check(ok_end and ok_start, "alloc:end-minus-start:%s" % kb.path.split("::")[-1], kb,
+                "allocation at %s is end-start (checked), end clamped to the stored size and start<size" % where,
+                "allocation at %s = end-start is not bounded by the blob size (end clamped to the stored size: %s; "
+                "start<size before it: %s)" % (where, ok_end, ok_start), where)
+        return
     subs = [l for l in lv if l[0] == "binop" and l[1] in SUB_OPS]
     if len(lv) == 1 and subs:
         bb = subs[0][2]
@@ -412,7 +428,23 @@ def reject_polarity(ctx, r, views, size_f):
                     continue
                 if not (bb in _can_reach(b, fsite.bb) or fsite.bb in cfgutil.reach(b, bb) or True):
                     continue
+                # an error passed on (`match read_at(..) { Err(e) => return Err(Wrapped(e)) }`): built behind the Err edge
+                # of a failed call - not a rejection of the request
+                rfb = ctx.rf(b)
+                if any(cfgutil.edges_dominate(b, rfb.err_edges_of(cs_.bb), bb) for cs_ in b.calls() if rfb.err_edges_of(cs_.bb)):
+                    continue
                 ok = False
+                # `end.checked_sub(start).ok_or(RangeError)`: the error is what the `None` of the checked subtraction -
+                # start > end - is turned into
+                errl = s["lhs"]["l"]
+                for s2 in b.calls():
+                    if (s2.path or "").split("::")[-1] in ("ok_or", "ok_or_else") and len(s2.term["args"]) == 2:
+                        al = sl.leaves_of_operand(s2.term["args"][1])
+                        recv = sl.leaves_of_operand(s2.term["args"][0])
+                        built_here = any(x[0] == "agg" and x[2] == bb for x in al) or (
+                            place_of(s2.term["args"][1]) is not None and _flows_to(b, errl, place_of(s2.term["args"][1])["l"]))
+                        if built_here and recv and all(x[0] == "call" and x[1].split("::")[-1] == "checked_sub" for x in recv):
+                            ok = True
                 for sw in b.normal_blocks():
                     c = cfgutil.cmp_true_edge(b, sw)
                     if c is None or c[0] not in ("Gt", "Lt"):
@@ -430,6 +462,14 @@ def reject_polarity(ctx, r, views, size_f):
                         "the range error at %s:%d is returned only on `start > end`" % (kb.file, s.get("line", 0)),
                         "the range error at %s:%d is not tied to `start > end` of the values that are subtracted" % (
                             kb.file, s.get("line", 0)), "%s:%d" % (kb.file, s.get("line", 0)))
+        # the rejection written as `end.checked_sub(start).ok_or(RangeError)?`
+        for s2 in b.calls():
+            if (s2.path or "").split("::")[-1] in ("ok_or", "ok_or_else") and len(s2.term["args"]) == 2:
+                recv = sl.leaves_of_operand(s2.term["args"][0])
+                if recv and all(x[0] == "call" and x[1].split("::")[-1] == "checked_sub" for x in recv):
+                    kb = b.origin_body(s2.bb)
+                    r.ok("invalid-range-iff-start-gt-end", kb,
+                         "the range error at %s is what `end.checked_sub(start)` = None (start > end) is turned into" % site_where(s2))
         # the read happens only below the stored size; at or above it the result is produced without reading
         off = fsite.term["args"][2] if len(fsite.term["args"]) > 2 else None
         ok = False
